@@ -84,6 +84,7 @@ class TourAdapter(RoutingAdapter):
         return n
 
     def extra_c03(self, ctx, tier, items):
+        self.annotate_broken(ctx)
         return {"reward_crashes": self.reward_crashes(ctx, items, "C03")}
 
     # ------------------------------------------------------------------ episodes (no padding)
@@ -135,12 +136,88 @@ class TourAdapter(RoutingAdapter):
         feasibility predicate never look at distances) a zero matrix of the same size keeps the case files small"""
         return envh.zmatrix(torch.zeros_like(t) if self._light else t)
 
+    # dedicated witnesses of repaired defects: (variant dict that must match, action list, label); they stay in the
+    # stream on every run and are reported under the original signature if the defect returns
+    witnesses = ()
+
     def extra_c06(self, ctx, tier, items):
         self._light = True
         try:
-            return super().extra_c06(ctx, tier, items)
+            out = super().extra_c06(ctx, tier, items) or {}
+            out.update(self.witness_cases(ctx, items))
+            self.annotate_broken(ctx)
+            return out
         finally:
             self._light = False
+
+    def witness_cases(self, ctx, items):
+        from vt.envprops import Item, CONCRETE
+        from vt.common import cnatlist, cbool, coq_eval_shards
+        cases, meta = [], []
+        for want, acts, label in self.witnesses:
+            it = next((x for x in items if x.ep.complete and all(x.variant.get(k) == v for k, v in want.items())), None)
+            if it is None:
+                ctx.broken.append("C06/%s: no episode of variant %s to attach the witness %s to" % (self.name, want, acts))
+                continue
+            v = envh.verdict(it.env, it.td_reset, torch.tensor([acts], dtype=torch.int64))
+            if v is None:
+                continue
+            cases.append("(%s, %s, %s)" % (self.coq_instance(it.env, it.td_reset, it.variant), cnatlist(acts), cbool(v)))
+            meta.append((it, acts, label, v))
+            ctx.count("%s/c06_witness/%s/%s" % (self.name, label, "accepted" if v else "rejected"))
+        if not cases:
+            return {}
+        codes = coq_eval_shards("cases_C06_%s_wit" % self.name, self.header, self.sol_type, self.sol_fn, cases, shard=self.shard)
+        bad = 0
+        for (it, acts, label, v), c in zip(meta, codes):
+            ctx.seen({"e": self.name, "witness": acts, "v": it.variant})
+            if c == 0:
+                continue
+            bad += 1
+            ep = envh.Episode()
+            ep.steps = [([], a, False) for a in acts]
+            ep.checker = v
+            fake = Item(self, it.variant, it.env, it.td_in, it.td_reset, ep, dict(it.meta, corruption=label), "solo")
+            if c in CONCRETE:
+                ctx.failure(self.signature(fake, c, 0), fake.replay({"what": CONCRETE[c], "corruption": label}), tag=self.name)
+            else:
+                path = ctx.write_replay(fake.replay({"code": c, "what": "checker model verdict differs from the implementation on the witness " + label}),
+                                        tag="corr-" + self.name)
+                ctx.broken.append("correspondence C06/%s (dedicated witness %s): code %d, case file %s" % (self.name, label, c, path))
+        return {"c06_witnesses": len(cases), "c06_witness_failures": bad}
+
+    # ------------------------------------------------------------------ result codes of Harness/H{TSP,ATSP,PDP}.v that the
+    # shared table envprops.DISAGREE does not know: their explanation is put into the broken-obligation text and into
+    # the disagreement replay
+    MY_CODES = {20: "instance outside the documented input format (wfb false on a generated instance): not a case of any theorem",
+                21: "final bookkeeping of the row (first_node / current_node / i) differs from the row model's"}
+
+    def annotate_broken(self, ctx):
+        import json, os, re
+        for k, b in enumerate(ctx.broken):
+            if ("/%s:" % self.name) not in b and ("/%s " % self.name) not in b:
+                continue
+            m = re.search(r"code (\d+) \(step \d+: \?\)", b)
+            if not m or int(m.group(1)) % 1000 not in self.MY_CODES:
+                continue
+            txt = self.MY_CODES[int(m.group(1)) % 1000]
+            ctx.broken[k] = b.replace(": ?)", ": %s)" % txt, 1)
+            mp = re.search(r"case file (\S+)", b)
+            if mp and os.path.exists(mp.group(1)):
+                try:
+                    d = json.load(open(mp.group(1)))
+                    d["what"] = "model/implementation disagreement: " + txt
+                    json.dump(d, open(mp.group(1), "w"), indent=1, default=str)
+                except Exception:
+                    pass
+
+    def extra_c01(self, ctx, tier, items):
+        self.annotate_broken(ctx)
+        return {}
+
+    def extra_c02(self, ctx, tier, items):
+        self.annotate_broken(ctx)
+        return {}
 
     # ------------------------------------------------------------------ C05: spread the enumeration budget over the sizes
     def extra_c05(self, ctx, tier, items):
@@ -158,6 +235,7 @@ class TourAdapter(RoutingAdapter):
                 if len(groups[k]) > depth:
                     out.append(groups[k][depth])
             depth += 1
+        self.annotate_broken(ctx)
         return super().extra_c05(ctx, tier, out)
 
     # ------------------------------------------------------------------ C04: solo vs batched (no padding exists)
@@ -206,4 +284,5 @@ class TourAdapter(RoutingAdapter):
                                 fake.replay({"what": bad, "solo_reward": it.ep.reward, "solo_actions": forced_actions,
                                              "batch_instances": [hexrow(m.td_in) for m in mates],
                                              "batch_actions": actions.tolist(), "position": pos}), tag=self.name)
+        self.annotate_broken(ctx)
         return {"c04_compositions": n_cmp, "c04_differences": n_bad, "reward_crashes": self.reward_crashes(ctx, items, "C04")}
